@@ -2,13 +2,19 @@
 FLOAT_NOTE = ('Trusted: Lean kernel; axioms propext/Classical.choice/Quot.sound; translator (field tables, constants '
               'regenerated from source each run); correspondence check for the hand-written model parts. ')
 
-claim('C20', 'Lean theorems for all radio values (omega over div/mod) + complete model-vs-code enumeration',
+claim('C20', 'Lean theorems for all radio values (omega over div/mod) about the source text itself (functions translated statement by statement on every run) + complete model-vs-code enumeration',
       'Theorems C20_sotdma/C20_itdma/C20_reconstruct_*/C20_classify/C20_report prove for every radio value that each '
       'reported field is the ITU bit range, inapplicable keys are None, the raw value is reconstructible and the '
       'SOTDMA/ITDMA classification is exclusive and by type/selector bit; masks and type sets are regenerated from '
       'the source and pinned by a kernel-decide obligation; the model is tied to util.py/messages.py by running both '
-      'on all 2^19 values (complete) and on type x radio samples (all 2^20 in the thorough tier).',
-      FLOAT_NOTE + 'Model of the three comm-state functions is hand-written (tie complete: finite domain).',
+      'on all 2^19 values (complete) and on type x radio samples (all 2^20 in the thorough tier). Since the function '
+      'translator (harness/translate_fn.py) the five functions are also rendered statement by statement from the '
+      'current source into Generated/Funcs.lean, and C20_src_* prove that text equal to the model for every input, '
+      'C20_source_sotdma/_itdma/_classify/_raw state the property about the source text directly.',
+      FLOAT_NOTE + 'Both ties apply to the comm-state functions: translated text (grammar: integer/bit arithmetic, '
+      'constant-key dict bookkeeping, if-chains, IntEnum(x) as membership in the present members, raise; anything else is '
+      'refused, tag cs) and complete enumeration of the finite domain against the hand-written model. '
+      'get_communication_state() itself (dict.update of the two results) is modelled by hand.',
       'DESIGN.md §5 C20')
 
 claim('C01', 'Lean theorem over all payloads (table-generic induction + kernel-decided table = layout obligations on tables regenerated from source)',
